@@ -2,6 +2,8 @@
 #pragma once
 #include "vfuzz.h"
 using namespace vf;
+#include <malloc.h>
+static std::string ledger_dump() { std::string r = std::to_string(guard_live().size()) + " live:"; int n = 0; for (void *p : guard_live()) { if (n++ > 6) break; size_t u = malloc_usable_size(p); r += " [" + std::to_string(u) + ":" + jstr(std::string((const char *)p, u < 24 ? u : 24)) + "]"; } return r; }
 
 struct Cfg { int prov; const KeySpec *k; std::string attr; jwt_alg_t expl; int exp_leeway; int nbf_leeway; int claims /* 1 iss, 2 sub, 4 aud expected */; bool cb; std::unique_ptr<LKey> lk; };
 static std::vector<std::unique_ptr<Cfg>> &CFGS = *new std::vector<std::unique_ptr<Cfg>>;
@@ -10,7 +12,7 @@ static size_t N_OLD_CFGS = 0;
 
 static int ro_cb(jwt_t *jwt, jwt_config_t *) {
   jwt_value_t v = val_get(JWT_VALUE_JSON, NULL);
-  if (jwt_claim_get(jwt, &v) == JWT_VALUE_ERR_NONE) free(v.json_val);
+  if (jwt_claim_get(jwt, &v) == JWT_VALUE_ERR_NONE) app_free(v.json_val);
   v = val_get(JWT_VALUE_STR, "alg"); jwt_header_get(jwt, &v);
   v = val_get(JWT_VALUE_INT, "exp"); jwt_claim_get(jwt, &v);
   return 0;
@@ -66,9 +68,10 @@ static int verify_with_oracle(size_t ci, const std::string &token) {
   // reset global state: allocator (bit 15 of the selector: the application has installed its own allocator)
   bool guard = (ci >> 15) & 1; G_DIRTY = (ci >> 14) & 1; G_POLLUTE = (ci >> 13) & 1; ci &= 0x1fff;
   jwt_set_alloc(NULL, NULL);
-  if (guard) { guard_foreign_frees() = 0; jwt_set_alloc(guard_malloc, guard_free); fs().cls("with-application-allocator"); }
+  size_t ledger0 = guard_live().size();
+  if (guard) { guard_active() = true; guard_foreign_frees() = 0; jwt_set_alloc(guard_malloc, guard_free); fs().cls("with-application-allocator"); }
   int r = verify_with_oracle_inner(ci, token);
-  if (guard) { jwt_set_alloc(NULL, NULL); if (guard_foreign_frees()) oracle_fail("pointer-not-from-installed-allocator-passed-to-its-free", "cfg=" + std::to_string(ci % CFGS.size()) + " token=" + token.substr(0, 300)); }
+  if (guard) { jwt_set_alloc(NULL, NULL); guard_active() = false; if (guard_foreign_frees()) oracle_fail("pointer-not-from-installed-allocator-passed-to-its-free", "cfg=" + std::to_string(ci % CFGS.size()) + " token=" + token.substr(0, 300)); if (guard_live().size() != ledger0) oracle_fail("block-from-installed-allocator-never-returned-to-it", ledger_dump() + " cfg=" + std::to_string(ci % CFGS.size()) + " token=" + token.substr(0, 300)); }
   return r;
 }
 static int verify_with_oracle_inner(size_t ci, const std::string &token) {
